@@ -157,14 +157,15 @@ def check(run, M, tier):
             # the "mask" returned on this path is a local that no statement of the path has bound (the loop was left before its first assignment):
             # the path ends in UnboundLocalError, it does not return
             continue
-        size = VN().ev(ast.parse("img_shape[-1] * img_shape[-2]", mode="eval").body, State())
-        aa = T.div(size, T.app("sum", base)) if isinstance(base, T.Poly) else None
-        aa2 = None
-        if isinstance(base, T.Poly):
-            aa2 = T.div(size, vn.lin_sum(base))
+        # img_shape is a pair (documented; `ny, nx = img_shape` makes the engine spell img_shape[-1] as img_shape[1]): both spellings of the size
+        cands = []
+        for src_ in ("img_shape[-1] * img_shape[-2]", "img_shape[1] * img_shape[0]"):
+            size = VN().ev(ast.parse(src_, mode="eval").body, State())
+            if isinstance(base, T.Poly):
+                cands += [T.div(size, T.app("sum", base)), T.div(size, vn.lin_sum(base))]
         want = None
         found = False
-        for cand in (aa, aa2):
+        for cand in cands:
             if cand is None:
                 continue
             c = VN(real={"accel", "tol"}).compare(ast.Lt(), T.abs_(T.sub(cand, T.sym("accel", real=True))), T.sym("tol", real=True))
